@@ -20,6 +20,7 @@ public:
     typename std::enable_if_t<!Runnable::isRunnable<T>::value, void> start(T ptr, Args&&... args) {
         // `ptr` is a by-value parameter: it is gone once start() returns, so the
         // new thread needs its own copy (the arguments stay references)
+        m_isFinished = false; // a joined Thread can be started again
         m_thread = std::thread([&, ptr]() mutable {
             ptr(std::forward<Args>(args)...);
             m_isFinished = true;
